@@ -133,9 +133,29 @@ def check(ctx: Ctx) -> None:
 
     find_wrappers(model)
     child = sp.Symbol("Z_k")
+    # the numeric combinators are decided by interpretation over the open/short/finite pattern domain; the shape rules
+    # below are the fallback when a construct is outside the interpreter
+    interpreted = False
+    try:
+        from ._c01_interp import run as _interp_run
+        probs, counts = _interp_run(ctx, model)
+        interpreted = True
+        for cls in ("Series", "Parallel"):
+            ctx.instance("R1.1" if cls == "Series" else "R1.2", f"{cls}._impedance interpreted on {counts[cls]} child patterns (kinds × zero/infinite/tiny/generic values): "
+                         + ("Σ Z_k" if cls == "Series" else "open skipped, partially open refused, shorts → 0, else 1/Σ(1/Z_k); each kind evaluated with its own argument set"))
+            mine = [p_ for p_ in probs if p_[0] == f"{cls}._impedance"]
+            if not mine:
+                ctx.ok()
+            for q_, kind_, text_ in mine:
+                ctx.violation("R1.1" if cls == "Series" else "R1.2", f"{q_}:{kind_}", SER if cls == "Series" else PAR, model.fi(SER if cls == "Series" else PAR, q_).node,
+                              f"{q_} does not obey the {'series' if cls == 'Series' else 'parallel'} composition law — {text_}")
+    except AnalysisError as e:
+        ctx.note(f"numeric combinators not interpretable ({e}); falling back to the shape rules")
     # ---------------- R1.1 ---------------------------------------------------------
     for mod, qual, law in ((SER, "Series._impedance", "sum"), (PAR, "Parallel._impedance", "recip"),
                            (SER, "Series.to_sympy", "sum"), (PAR, "Parallel.to_sympy", "recip")):
+        if interpreted and qual.endswith("._impedance"):
+            continue
         fi = model.fi(mod, qual)
         steps, rets, ch, acc = fold_summary(fi.node)
         if not steps:
@@ -213,6 +233,8 @@ def check(ctx: Ctx) -> None:
             ctx.violation("R1.1", f"{qual}:empty", mod, fi.node, f"{qual}: an empty connection must evaluate to zero impedance")
     # every child is visited: loops iterate self._elements (or the list filled from it)
     for mod, qual in ((SER, "Series._impedance"), (PAR, "Parallel._impedance"), (SER, "Series.to_sympy"), (PAR, "Parallel.to_sympy")):
+        if interpreted and qual.endswith("._impedance"):
+            continue
         fi = model.fi(mod, qual)
         ctx.instance("R1.1", f"{qual}: iterates every child")
         prov = child_provider(model, fi)
@@ -245,7 +267,8 @@ def check(ctx: Ctx) -> None:
                 ctx.ok()
 
     # ---------------- R1.2 ---------------------------------------------------------
-    _parallel_table(ctx, model)
+    if not interpreted:
+        _parallel_table(ctx, model)
 
     # ---------------- R1.3 ---------------------------------------------------------
     sites = [(BASE, "_calculate_impedances", "obj", "num"), (SER, "Series._impedance", "elem_con", "num"),
@@ -254,6 +277,8 @@ def check(ctx: Ctx) -> None:
     cont_q, elem_q, conn_q = f"{BASE}:Container", f"{BASE}:Element", f"{BASE}:Connection"
     dyn_sites = []
     for mod, qual, var, kind in sites:
+        if interpreted and kind == "num" and qual.endswith("._impedance"):
+            continue  # the child stubs of the interpretation accept only the argument set of their own kind
         fi0 = model.fi(mod, qual)
         if kind == "num" and qual.endswith("._impedance"):
             prov = child_provider(model, fi0)
